@@ -13717,3 +13717,141 @@ func ruleResetNoopBothHeights(c *Ctx) {
 	})
 	c.Floor("reset-noop-both-heights.exits", n, 1)
 }
+
+// ruleContextResetBeforeUse (C17, C01): a SerializationContext is kept and reused (dao.GetItemCtx hands one out for
+// every stack item, notification and invocation of a block). What one Serialize call remembers about the items it has
+// seen - offsets into *its* output buffer - means nothing in the next call, whose buffer starts again at zero. Every
+// path of an exported method of the context from its entry to the call of the recursive worker passes a statement
+// that empties (clear) or replaces every map field of the context.
+func ruleContextResetBeforeUse(c *Ctx) {
+	pk := c.P.Pkg("pkg/vm/stackitem")
+	if pk == nil {
+		c.Lost("context-reset-before-use.anchor", "package stackitem not found")
+		return
+	}
+	info := pk.TypesInfo
+	tn, _ := pk.Types.Scope().Lookup("SerializationContext").(*types.TypeName)
+	if tn == nil {
+		c.Lost("context-reset-before-use.type", "stackitem.SerializationContext not found")
+		return
+	}
+	st, _ := tn.Type().Underlying().(*types.Struct)
+	var maps []*types.Var
+	for i := 0; st != nil && i < st.NumFields(); i++ {
+		if _, ok := st.Field(i).Type().Underlying().(*types.Map); ok {
+			maps = append(maps, st.Field(i))
+		}
+	}
+	c.Floor("context-reset-before-use.map fields of the context", len(maps), 1)
+	n := 0
+	for _, fd := range c.P.AllFuncDecls() {
+		if fd.Pkg != pk || fd.Decl.Body == nil || fd.Decl.Recv == nil || !fd.Decl.Name.IsExported() {
+			continue
+		}
+		sig := fd.Obj.Type().(*types.Signature)
+		if !namedTypeIsPtr(sig.Recv().Type(), "github.com/nspcc-dev/neo-go/pkg/vm/stackitem", "SerializationContext") {
+			continue
+		}
+		f := c.P.NewFuncCFG(fd)
+		workers := f.CallSites("pkg/vm/stackitem.(*SerializationContext).serialize")
+		if len(workers) == 0 {
+			continue
+		}
+		for _, mf := range maps {
+			n++
+			var resets []site
+			for _, b := range f.G.Blocks {
+				if !b.Live {
+					continue
+				}
+				for i, nd := range b.Nodes {
+					inspectNoLit(nd, func(x ast.Node) bool {
+						switch y := x.(type) {
+						case *ast.CallExpr:
+							if id, ok := y.Fun.(*ast.Ident); ok && id.Name == "clear" && len(y.Args) == 1 {
+								if se, ok := ast.Unparen(y.Args[0]).(*ast.SelectorExpr); ok && info.ObjectOf(se.Sel) == mf {
+									resets = append(resets, site{b, i, nd, y})
+								}
+							}
+						case *ast.AssignStmt:
+							for _, l := range y.Lhs {
+								if se, ok := ast.Unparen(l).(*ast.SelectorExpr); ok && info.ObjectOf(se.Sel) == mf {
+									resets = append(resets, site{b, i, nd, nil})
+								}
+							}
+						}
+						return true
+					})
+				}
+			}
+			key := fmt.Sprintf("context-reset-before-use:%s.%s", fd.Decl.Name.Name, mf.Name())
+			ok, path := f.mustBefore(f.Entry(), workers, resets, nil)
+			if ok && len(resets) > 0 {
+				c.OK(key, c.P.Pos(workers[0].call.Pos()), "the memory of the previous call is dropped before the worker runs")
+			} else {
+				c.Fail(key, c.P.Pos(workers[0].call.Pos()), fmt.Sprintf("SerializationContext.%s can reach the recursive worker without having emptied %s (%s): the context is reused for every item of a block, the offsets remembered for a compound item point into the previous call's buffer, and an item that appears in two calls is written as whatever bytes lie there now - the stored execution result is not the encoding of the item that ran", fd.Decl.Name.Name, mf.Name(), strings.Join(path, " -> ")))
+			}
+		}
+	}
+	c.Floor("context-reset-before-use.obligations", n, 1)
+}
+
+// ruleDecodeRefreshesCache (C17, C06): a decoder that fills an object also recomputes what the object caches about
+// its content. Header.Hash() computes the hash only when the cache is empty; called from the decoder it leaves the
+// hash of whatever the object held before. Among the methods of the type that a decodeHashableFields calls there is one
+// that assigns the cached hash field unconditionally (at the top level of its body).
+func ruleDecodeRefreshesCache(c *Ctx) {
+	n := 0
+	for _, loc := range [][2]string{{"pkg/core/block", "Header"}} {
+		fd := c.P.Func(loc[0], loc[1], "decodeHashableFields")
+		if fd == nil {
+			c.Lost("decode-refreshes-cache.anchor", loc[1]+".decodeHashableFields not found")
+			continue
+		}
+		info := fd.Pkg.TypesInfo
+		assignsUnconditionally := func(d *FuncDecl) bool {
+			if d == nil || d.Decl.Body == nil {
+				return false
+			}
+			for _, st := range d.Decl.Body.List {
+				if as, ok := st.(*ast.AssignStmt); ok {
+					for _, l := range as.Lhs {
+						if se, ok := ast.Unparen(l).(*ast.SelectorExpr); ok && se.Sel.Name == "hash" {
+							if v, ok := d.Pkg.TypesInfo.ObjectOf(se.Sel).(*types.Var); ok && v.IsField() {
+								return true
+							}
+						}
+					}
+				}
+			}
+			return false
+		}
+		refreshed := assignsUnconditionally(fd)
+		var called []string
+		ast.Inspect(fd.Decl.Body, func(x ast.Node) bool {
+			call, ok := x.(*ast.CallExpr)
+			if !ok {
+				return true
+			}
+			fn := calleeFunc(info, call)
+			if fn == nil {
+				return true
+			}
+			if d := c.P.DeclOf(fn); d != nil && d.Pkg == fd.Pkg && d.Decl.Recv != nil {
+				called = append(called, fn.Name())
+				if assignsUnconditionally(d) {
+					refreshed = true
+				}
+			}
+			return true
+		})
+		n++
+		key := "decode-refreshes-cache:" + loc[1]
+		if refreshed {
+			c.OK(key, c.P.Pos(fd.Decl.Pos()), "the decoder recomputes the cached hash")
+		} else {
+			c.Fail(key, c.P.Pos(fd.Decl.Pos()), fmt.Sprintf("%s.decodeHashableFields calls %s, none of which assigns the cached hash unconditionally (the memoising getter computes it only when the cache is empty): decoding into an object that was hashed or decoded before leaves the old hash next to the new content - Hash() no longer is what the encoding yields, for Block too", loc[1], strings.Join(called, ", ")))
+		}
+	}
+	c.Floor("decode-refreshes-cache.decoders", n, 1)
+}
